@@ -289,6 +289,12 @@ MUTANTS = [
      'edits': [(CORE, "    let key = validate_hash_map_key(vm.peek(1))?;\n    let value = vm.peek(0);\n\n    let mut borrowed_hash_map = hash_map.borrow_mut();",
                 "    let mut borrowed_hash_map = hash_map.borrow_mut();\n    borrowed_hash_map.elements.remove(&Value::None);\n    let key = validate_hash_map_key(vm.peek(1))?;\n    let value = vm.peek(0);\n")]},
     # ---- C04 ----------------------------------------------------------------------------------------
+    {'name': 'B8 break emits its Jump before the scope-end pops (regression of bff4dcb)', 'prop': 'C04', 'expect': 'B8 / break_statement',
+     'edits': [(COMP, "        self.emit_scope_end(false, scope_depth);\n        let break_pos = self.emit_jump(OpCode::Jump);\n",
+                "        let break_pos = self.emit_jump(OpCode::Jump);\n        self.emit_scope_end(false, scope_depth);\n")]},
+    {'name': 'B8 continue emits Loop before the scope-end pops', 'prop': 'C04', 'expect': 'B8 / continue_statement',
+     'edits': [(COMP, "        self.emit_scope_end(false, scope_depth);\n        self.emit_loop(jump_target);\n",
+                "        self.emit_loop(jump_target);\n        self.emit_scope_end(false, scope_depth);\n")]},
     {'name': 'B1 Invoke emitted with a one-byte method-name operand', 'prop': 'C04', 'expect': 'B1 / Invoke',
      'edits': [(COMP, "            s.emit_constant_op(OpCode::Invoke, name);\n            s.emit_byte(arg_count);", "            s.emit_bytes([OpCode::Invoke as u8, name as u8]);\n            s.emit_byte(arg_count);")]},
     {'name': 'B1 Call handler reads a two-byte argument count', 'prop': 'C04', 'expect': 'B1 / Call',
